@@ -137,7 +137,7 @@ cos_sin = _mathfun_real(lambda x: (math.cos(x), math.sin(x)),
 
 def _cbrt(x):
     y = x**(1./3)
-    if y:
+    if y and not cmath.isinf(y):
         # the exponent 1/3 is rounded: one Newton step removes the error
         y -= (y*y*y - x)/(3*y*y)
     return y
